@@ -422,7 +422,7 @@ def plan_C12(prop, tier, seed, t0):
         # --graphs-every K: every K-th pair also as two unitary DIAGRAMS that are not to_graph outputs (simplified, built with options,
         # colour-changed, renamed, times i), ground truth = Den of the logged diagrams
         dict(name="rand", engine="eqcheck", args=["--random", 400 if q else 2500, "--alphabet", "unitary", "--maxq", 3, "--maxlen", 7,
-                                                  "--graphs-every", 20 if q else 3], **T),
+                                                  "--graphs-every", 8 if q else 3], **T),
         # circuit-derived maps that are not square (ancilla initialisation / post-selection: n -> m, m != n), seed C12_e: identical pairs,
         # pairs differing by a cancelling pair / one gate, independent pairs; tensor checkers and arity tests judged in full, the
         # rewriting-based checker (which presupposes unitaries) only on its "not equal" answers
